@@ -24,6 +24,7 @@ tvars == <<vars, l, seen>>
 
 TraceInit ==
   /\ cfg = BaseCfg /\ in = In("seq", "seq", "none", <<>>, <<>>)
+  /\ md = MdAtCreate /\ target = NoTarget
   /\ pc = "seq" /\ rnd = 0 /\ ids = <<>> /\ msg = [kind |-> "none"]
   /\ outcome = "none" /\ sigform = "none"
   /\ wire = NoWire /\ signed = NoWire /\ recv = NoWire /\ params = NoWire
